@@ -14,6 +14,7 @@ package compare
 //@ emits: expr
 //@ o-operands: thisField:fieldType thatField:fieldType -> int
 //@ o-pure
+//@ o-fork: usermethod compare.compareMethodInputParam fieldType
 //@ o-ensures: [field] r == CmpC(fieldType, thisField, thatField)
 // A []byte component is handed to bytes.Compare (lexicographic, nil == empty: the
 // total order consistent with bytes.Equal, which derived Equal uses there). It is a
